@@ -21,6 +21,7 @@ def all_patterns():
 
 class C02(Check):
     pid = "C02"
+    library_exception_is_violation = True  # every call made in execute() is one the property covers, with valid arguments
     level = "fault_enumeration"
     chunk = 4
     run_timeout = 600.0
